@@ -164,7 +164,12 @@ class RealWorld:
         clone = self.p.call(self.p.method(node, "clone"), [])
         # SqlImpl.build_select: final selection from the cache of the tree, aliases for the leaves, compile_ast, compile_query
         sel = self.p.call(self.env["SqlImpl"].methods["build_select"].bind(cls_), [clone])
+        self.last_clone = clone
         return sel, None, None
+
+    def recompile(self):
+        """the tree of the last compile(), compiled once more (a compiler that rewrites the tree it is given answers differently)"""
+        return self.p.call(self.env["SqlImpl"].methods["build_select"].bind(self.impl_cls()), [self.last_clone])
 
 
 def read_select(t):
@@ -241,17 +246,38 @@ class CompileExplorer(Explorer):
         self.compiled += 1
         ref = sim.ref
         expected = list(ref.closed) + [dict(ref.seg, select=list(ref.names()))]
-        # statements from the outermost inwards
-        stmts = []
-        t = sel
-        while True:
-            clauses, frm = read_select(t)
-            stmts.append(clauses)
-            if isinstance(frm, Term) and frm.fn == "subquery":
-                t = frm.recv
-                continue
-            break
-        stmts.reverse()
+
+        def nested(t):
+            # statements from the outermost inwards
+            out = []
+            while True:
+                clauses, frm = read_select(t)
+                out.append(clauses)
+                if isinstance(frm, Term) and frm.fn == "subquery":
+                    t = frm.recv
+                    continue
+                break
+            out.reverse()
+            return out
+
+        stmts = nested(sel)
+        # compiling the same tree a second time gives the same statement: the compiler does not consume / rewrite the tree it
+        # is given (a subtree is compiled more than once when a union re-orders its right operand)
+        try:
+            again = nested(w.recompile())
+
+            def shape(ss):
+                return [(_tags(d["where"]), _tags(d["having"]), None if d["group"] is None else [_name(x) for x in d["group"]],
+                         [repr(x) for x in d["order"]], d["limit"], d["offset"], [_name(x) for x in (d["select"] or [])]) for d in ss]  # fmt: skip
+
+            if shape(again) != shape(stmts):
+                a, b = shape(stmts), shape(again)
+                diff = next((f"SELECT #{i + 1}: {x} then {y}" for i, (x, y) in enumerate(zip(a, b)) if x != y), f"{len(a)} then {len(b)} nested SELECTs")
+                self.add("recompile", seq[-1], "second compilation differs", seq,
+                         f"`{' >> '.join(seq)}`: compiling the same tree a second time gives another statement ({diff[:200]}): SqlImpl.compile_ast modifies the tree it compiles")  # fmt: skip
+        except PyRaise as e:
+            self.add("recompile", seq[-1], f"second compilation raises {e.name}", seq,
+                     f"`{' >> '.join(seq)}`: compiling the same tree a second time raises {e.name}: {e.msg} - SqlImpl.compile_ast modifies the tree it compiles")  # fmt: skip
         if len(stmts) != len(expected):
             self.add("statement-shape", seq[-1], "subqueries", seq, f"`{' >> '.join(seq)}` compiles to {len(stmts)} nested SELECTs, the verbs' meaning needs {len(expected)}")
             return
@@ -294,6 +320,7 @@ CLASSES = {
     "order": lambda f: f.issue == "clause" and f.reason.startswith("ORDER"),
     "select": lambda f: f.issue == "clause" and f.reason.startswith("the select list"),
     "shape": lambda f: f.issue == "statement-shape",
+    "recompile": lambda f: f.issue == "recompile",
 }
 
 
@@ -455,7 +482,6 @@ def compile_query_scenarios(w: RealWorld):
         ("limit", {"limit": 5}),
         ("limit 0", {"limit": 0}),
         ("limit and offset", {"limit": 5, "offset": 2}),
-        ("offset without limit", {"offset": 2}),
         ("every clause", {"where": 1, "group_by": ["t.a"], "having": 1, "order_by": ["t.a", "t.b"], "limit": 3, "offset": 1}),
     ]
     out = []
@@ -463,8 +489,12 @@ def compile_query_scenarios(w: RealWorld):
         table, sqa_expr = fresh_state()
         wh = [pred(i) for i in range(spec.get("where", 0))]
         hv = [pred(10 + i) for i in range(spec.get("having", 0))]
-        q = p.new("backend.sql", "Query", select=["t.c", "t.a"], where=wh, having=hv, group_by=list(spec.get("group_by", [])),
-                  order_by=[order(u) for u in spec.get("order_by", [])], limit=spec.get("limit"), offset=spec.get("offset"))  # fmt: skip
+        # (built by the class's own constructor: fields this scenario does not mention get their declared defaults)
+        q = p.call(w.env["Query"], [["t.c", "t.a"]], dict(where=wh, having=hv, group_by=list(spec.get("group_by", [])),
+                   order_by=[order(u) for u in spec.get("order_by", [])], limit=spec.get("limit"), offset=spec.get("offset")))  # fmt: skip
+        if spec.get("group_by") or hv:
+            if "is_aggregated" in {n for n, _ in w.env["Query"].fields}:
+                q.attrs["is_aggregated"] = True
         want = {
             "where": [e.attrs["_tag"] for e in wh], "having": [e.attrs["_tag"] for e in hv],
             "group": [u.split(".")[1] for u in spec.get("group_by", [])] or None,
@@ -581,4 +611,119 @@ def from_ast_scenarios(w: RealWorld):
     compare("(t >> select >> rename) >> union(v)", nu, w.update(c2, nu, right_cache=cache3))
     nj2 = w.obj("Join", child=leaf2, right=n3, on=w.lit(True), how="inner", validate="m:m")
     compare("o >> join(t >> select >> rename >> filter)", nj2, w.update(cache2, nj2, right_cache=c3))
+    return out
+
+
+def grouping_injection_scenarios(w: RealWorld):
+    """`preprocess_arg` interpreted on a grouped table (two grouping columns) for functions of every function type, with and
+    without an explicit partition_by=, in window context (every verb but summarize) and in aggregate context: the pending
+    grouping becomes the function's partition exactly for the non-element-wise functions that carry none, in window context; the
+    expression the caller passed is not modified.  -> list of (description, ok, detail)"""
+    p = w.p
+    out = []
+    venv = p.env_of(p.repo.mod("pipe.verbs"))
+    pa = venv["preprocess_arg"]
+    for ft, ftname in ((EW, "element-wise"), (AGG, "aggregate"), (WIN, "window")):
+        for explicit in (False, True):
+            for aiw in (True, False):
+                if ft == WIN and not aiw:
+                    continue  # (a window function is refused by summarize before it gets here)
+                leaf, cache = w.source("t", ["a", "g", "h", "k"])
+                cache.attrs["partition_by"] = ["t.h", "t.g"]
+                tbl = p.new("pipe.table", "Table", _ast=leaf, _cache=cache)
+                cols = cache.attrs["cols"]
+                e = w.fn("f", ft, cols["t.a"])
+                if explicit:
+                    e.attrs["context_kwargs"] = {"partition_by": [cols["t.k"]]}
+                inner = w.fn("g", ft, cols["t.a"]) if ft == EW else None
+                if inner is not None:
+                    e.attrs["args"] = [inner]
+                before = dict(e.attrs["context_kwargs"])
+                label = f"{ftname} function, {'explicit partition_by=' if explicit else 'no partition_by='}, {'window context' if aiw else 'aggregate context (summarize)'}"
+                try:
+                    r = p.call(pa, [e, tbl], {"agg_is_window": aiw})
+                except PyRaise as ex:
+                    out.append((label, False, f"preprocess_arg raises {ex.name}: {ex.msg} for a {label}"))
+                    continue
+                got = r.attrs["context_kwargs"].get("partition_by") if isinstance(r, Obj) else None
+                got_ids = None if got is None else [c.attrs.get("_uuid") for c in got]
+                if explicit:
+                    want = ["t.k"]
+                elif ft != EW and aiw:
+                    want = ["t.h", "t.g"]
+                else:
+                    want = None
+                out.append((f"{label}: partition = {want}", got_ids == want,
+                            f"preprocess_arg on a table grouped by (h, g) gives a {label} the partition {got_ids}, documented {want}: "
+                            "window functions / aggregates in mutate are evaluated per group of the enclosing group_by, an explicit partition_by= wins, "
+                            "summarize aggregates over the groups themselves"))  # fmt: skip
+                out.append((f"{label}: the caller's expression is untouched", e.attrs["context_kwargs"] == before and r is not e,
+                            f"preprocess_arg modifies the expression object it was given ({label}): context_kwargs {before} -> {e.attrs['context_kwargs']}"))  # fmt: skip
+    return out
+
+
+def over_scenarios(w: RealWorld):
+    """the ColFn branch of `SqlImpl.compile_col_expr` interpreted for window functions: the OVER clause is built from the
+    expression's own `partition_by=` (PARTITION BY) and `arrange=` (ORDER BY) - not swapped, not dropped.
+    -> list of (description, ok, detail)"""
+    p = w.p
+    out = []
+    cls_ = Obj(w.env["SqlImpl"])
+    from .polsim import _OpsNS
+
+    w.env["ops"] = _OpsNS()  # `ops.<name>`: opaque operator objects compared by identity
+
+    def get_impl(op, sig):
+        return Native(lambda *a, **k: Term("impl:" + str(op.attrs.get("name")), a), "impl")
+
+    def compile_order(order, sqa_expr):
+        e = order.attrs["order_by"]
+        return Var("O:" + str(e.attrs.get("name")))
+
+    cls_.attrs.update({
+        "compile_order": Native(compile_order, "cls.compile_order"), "get_impl": Native(get_impl, "cls.get_impl"),
+        "sqa_type": Native(lambda t: Var("ty"), "cls.sqa_type"), "dialect_order_append_rand": Native(lambda: False, "cls.dialect_order_append_rand"),
+        "fix_fn_types": Native(lambda fn, val, *args: val, "cls.fix_fn_types"),
+    })  # fmt: skip
+    f = w.env["SqlImpl"].methods["compile_col_expr"].bind(cls_)
+    leaf, cache = w.source("t", ["a", "g", "o"])
+    cols = cache.attrs["cols"]
+    sqa_expr = {u: p.call(w.env["Label"], [u.split(".")[1], None]) for u in cols}
+
+    def has(t, pred):
+        if pred(t):
+            return True
+        if isinstance(t, Term):
+            return any(has(x, pred) for x in list(t.args) + list(t.kwargs.values()) + ([t.recv] if t.recv is not None else []))
+        if isinstance(t, (list, tuple)):
+            return any(has(x, pred) for x in t)
+        return False
+
+    is_g = lambda x: isinstance(x, Obj) and x.attrs.get("name") == "g"  # noqa: E731
+    is_o = lambda x: isinstance(x, Var) and x.name == "O:o"  # noqa: E731
+    for label, part, arr in (("partition_by= and arrange=", True, True), ("arrange= only", False, True), ("partition_by= only", True, False)):
+        e = w.fn("winfn", WIN, cols["t.a"])
+        e.attrs["op"].attrs["trie"] = _ModuleNS({"best_match": Native(lambda sig: ([w.I for _ in sig], None), "trie.best_match")})
+        e.attrs["_ftype"] = w.F.WINDOW
+        kw = {}
+        if part:
+            kw["partition_by"] = [cols["t.g"]]
+        if arr:
+            kw["arrange"] = [w.order(cols["t.o"])]
+        e.attrs["context_kwargs"] = kw
+        try:
+            t = p.call(f, [e, sqa_expr])
+        except PyRaise as ex:
+            out.append((f"window function with {label} compiles", False, f"SqlImpl.compile_col_expr raises {ex.name}: {ex.msg} for a window function with {label}"))
+            continue
+        overs = [x for x in (t.walk() if isinstance(t, Term) else []) if isinstance(x, Term) and x.fn.split(".")[-1] == "over"]
+        if len(overs) != 1:
+            out.append((f"window function with {label}: one OVER clause", False, f"a window function with {label} compiles to {str(t)[:160]} with {len(overs)} OVER clauses"))
+            continue
+        o = overs[0]
+        pb, ob = o.kwargs.get("partition_by"), o.kwargs.get("order_by")
+        ok = (has(pb, is_g) == part) and not has(pb, is_o) and (has(ob, is_o) == arr) and not has(ob, is_g) and has(o.args, lambda x: isinstance(x, Term) and x.fn == "impl:winfn")
+        out.append((f"window function with {label}: OVER(PARTITION BY <partition_by=> ORDER BY <arrange=>)", ok,
+                    f"a window function with {label} compiles to {str(o)[:220]}: PARTITION BY must hold the compiled partition_by= columns and ORDER BY the compiled "
+                    "arrange= keys (neither swapped nor dropped)"))  # fmt: skip
     return out
